@@ -262,7 +262,19 @@ void refusalCase(Ctx& ctx, int k, Scenario& sc)
 	case 0: { auto w = good; w[0] = 'X'; sc.refusal("bad-riff-tag", { { "a.wav", w }, { "b.wav", good } }); break; }
 	case 1: { auto w = good; w[8] = 'w'; sc.refusal("bad-wave-tag", { { "a.wav", w } }); break; }
 	case 2: { auto w = good; mc::set32(w, 4, mc::get32(w, 4) + 1); sc.refusal("riff-size-mismatch", { { "a.wav", w }, { "b.wav", good } }); break; }
-	case 3: { auto w = good; w.push_back(0); sc.refusal("riff-size-mismatch", { { "a.wav", w } }); break; }
+	case 3: {
+		// a complete RIFF chunk followed by one more byte: whether that still is a WAV file is not said; refused, or packed with exactly its audio data
+		auto w = good; w.push_back(0);
+		mc::removeTree(sc.root); mc::makeDir(sc.root); if (::chdir(sc.root.c_str()) != 0) std::abort();
+		mc::writeFile("a.wav", w);
+		std::string got; std::size_t count = 0;
+		auto o = mc::guarded([&] { Archive::ClmFile::CreateArchive("out.clm", { "a.wav" }); Archive::ClmFile c("out.clm"); count = c.GetCount(); auto st = c.OpenStream(0); got.resize(std::size_t(st->Length())); if (!got.empty()) st->Read(&got[0], got.size()); });
+		ctx.transition(); ctx.count("refusal/byte-after-the-riff-chunk-tried");
+		Track t{ 0, false, 4, 8, 0, "zz" }; auto audio = audioOf(t);
+		if (o.cls == 'R' && (count != 1 || got != std::string(audio.begin(), audio.end()))) ctx.violation("C03/byte-after-the-riff-chunk/accepted-with-other-data", "a.wav", std::to_string(count) + " members, " + std::to_string(got.size()) + " bytes");
+		else if (o.cls == 'X') ctx.violation("C03/refusal/non-std-exception", "a.wav with a byte after the RIFF chunk", "");
+		break;
+	}
 	case 4: for (int field = 0; field < 6; ++field) { auto f = f0; switch (field) { case 0: f.tag ^= 2; break; case 1: f.channels = 2; break; case 2: f.rate += 1; break; case 3: f.avgBytes += 1; break; case 4: f.blockAlign = 4; break; default: f.bits = 8; } sc.refusal("format-mismatch", { { "a.wav", good }, { "b.wav", wav(4, f) } }); } break;
 	case 5: sc.refusal("name-too-long", { { "abcdefghi.wav", good } }); break;
 	case 6: sc.refusal("name-too-long", { { "a.wav", good }, { "d1/nine_char.wav", good } }); break;
